@@ -41,9 +41,21 @@ func init() {
 // (verif.FireTickers) - "a ticker may fire at any time" becomes an explicit harness choice.
 
 var tickerChans []*chanObj
+var tickerStopped = map[*chanObj]bool{}
+
+func tickerChanOf(v value) *chanObj {
+	if p, ok := v.(*value); ok && p != nil {
+		if st, ok := (*p).(structure); ok && len(st) > 0 {
+			if c, ok := st[0].(*chanObj); ok {
+				return c
+			}
+		}
+	}
+	return nil
+}
 
 func init() {
-	resetHooks = append(resetHooks, func() { tickerChans = nil })
+	resetHooks = append(resetHooks, func() { tickerChans = nil; tickerStopped = map[*chanObj]bool{} })
 	externals["time.NewTicker"] = func(fr *frame, args []value) value {
 		noteStub("time.NewTicker: intrinsic ticker fired only by verif.FireTickers")
 		timeT := fr.i.prog.ImportedPackage("time").Type("Time").Type()
@@ -52,12 +64,22 @@ func init() {
 		var cell value = structure{c, true}
 		return &cell
 	}
-	externals["(*time.Ticker).Stop"] = func(fr *frame, args []value) value { return nil }
-	externals["(*time.Ticker).Reset"] = func(fr *frame, args []value) value { return nil }
+	externals["(*time.Ticker).Stop"] = func(fr *frame, args []value) value {
+		if c := tickerChanOf(args[0]); c != nil {
+			tickerStopped[c] = true // a stopped ticker delivers no more ticks
+		}
+		return nil
+	}
+	externals["(*time.Ticker).Reset"] = func(fr *frame, args []value) value {
+		if c := tickerChanOf(args[0]); c != nil {
+			delete(tickerStopped, c)
+		}
+		return nil
+	}
 	externals[VerifPkg+".FireTickers"] = func(fr *frame, args []value) value {
 		timeT := fr.i.prog.ImportedPackage("time").Type("Time").Type()
 		for _, c := range tickerChans {
-			if Sched.canSend(c) && !c.closed {
+			if Sched.canSend(c) && !c.closed && !tickerStopped[c] {
 				Sched.doSend(c, zero(timeT))
 			}
 		}
